@@ -30,29 +30,39 @@ class Stream {
   virtual size_t readBytes(char* buffer, size_t length) = 0;
 };
 
-// Arduino's String: NUL-terminated, concat() may fail (returns 0).
+// Arduino's String: a length plus a NUL-terminated heap buffer of exactly length+1 bytes (so that a reader running past the
+// terminator meets a red zone); like the real class it can hold embedded NUL bytes (String(const char*, unsigned) and
+// concat(const char*, unsigned) of the ESP / newer AVR cores); concat() may fail (returns 0).
 class String {
  public:
-  String() = default;
-  String(const char* s) { if (s) str_.assign(s); }
+  String() { set("", 0); }
+  String(const char* s) { set(s ? s : "", s ? strlen(s) : 0); }
+  String(const char* s, unsigned int n) { set(s, n); }
+  String(const String& o) { set(o.buf_, o.len_); }
+  String& operator=(const String& o) { if (this != &o) set(o.buf_, o.len_); return *this; }
+  ~String() { free(buf_); }
   void limitCapacityTo(size_t n) { max_ = n; }
   unsigned char concat(const char* s) { return concat(s, strlen(s)); }
-  size_t length() const { return str_.size(); }
-  const char* c_str() const { return str_.c_str(); }
-  bool operator==(const char* s) const { return str_ == s; }
-  String& operator=(const char* s) { if (s) str_.assign(s); else str_.clear(); return *this; }
-  char operator[](unsigned int i) const { return i < str_.size() ? str_[i] : 0; }
-  const std::string& std() const { return str_; }
+  size_t length() const { return len_; }
+  const char* c_str() const { return buf_; }
+  bool operator==(const char* s) const { return strlen(s) == len_ && memcmp(buf_, s, len_) == 0; }
+  String& operator=(const char* s) { set(s ? s : "", s ? strlen(s) : 0); return *this; }
+  char operator[](unsigned int i) const { return i < len_ ? buf_[i] : 0; }
+  std::string std() const { return std::string(buf_, len_); }
 
  protected:
   unsigned char concat(const char* s, size_t n) {
-    if (str_.size() + n > max_) return 0;
-    str_.append(s, n);
+    if (len_ + n > max_) return 0;
+    char* nb = (char*)malloc(len_ + n + 1);
+    memcpy(nb, buf_, len_); memcpy(nb + len_, s, n); nb[len_ + n] = 0;
+    free(buf_); buf_ = nb; len_ += n;
     return 1;
   }
 
  private:
-  std::string str_;
+  void set(const char* s, size_t n) { char* nb = (char*)malloc(n + 1); if (n) memcpy(nb, s, n); nb[n] = 0; free(buf_); buf_ = nb; len_ = n; }
+  char* buf_ = nullptr;
+  size_t len_ = 0;
   size_t max_ = (size_t)-1;
 };
 
